@@ -118,6 +118,11 @@ def teardown_violations(op, line):
         if n:
             v.append(("C14", "goroutine-left-after-tunnel-end", f"{side}: {n} {what} goroutine(s) started by the library are still alive after the "
                                                                 f"tunnel ended and everything was released"))
+    if a:
+        # C04: a handler goroutine that is still alive now is inside a library call (RecvMsg / SendMsg / ...) that did not return
+        # although the tunnel ended and its context was cancelled; a receive loop still alive means the channel never ended
+        what = "a handler is still blocked inside a read or write of its stream" if side == "server" else "the channel's receive loop is still running"
+        v.append(("C04", "blocked-call-not-released-by-termination", f"{side}: the tunnel ended and everything was released, but {what} ({a} goroutine(s))"))
     if tbl:
         v.append(("C14", "table-entry-left-after-tunnel-end", f"{side}: stream table still holds [{tbl}] after the tunnel ended"))
     return v
@@ -275,6 +280,7 @@ class SWorldMonitor:
                         if closes != [f"close:{code}{{-}}"]:
                             v.append(("C09", "bad-method-outcome", f"new_stream {sid} method {method!r}: expected close:{code}, got {o['F']}"))
                         self.meta[sid] = {"accepted": False}
+                        self.refused[sid] = "method"
                     else:
                         self.table.add(sid)
                         self.meta[sid] = {"accepted": True, "shape": shape, "msgs": 0, "rev": rev}
@@ -294,6 +300,10 @@ class SWorldMonitor:
                                       f"stream {sid} was refused ({why}); its next frame `{op}` ended the whole tunnel: {tunnel_err}"))
                             v.append(("C03", "refused-rpc-kills-tunnel",
                                       f"stream {sid} was refused ({why}); its next frame `{op}` ended the whole tunnel: {tunnel_err}"))
+                            if why != "closing":
+                                # a peer input the endpoint documents as a stream-level violation (unsupported revision, bad method)
+                                v.append(("C09", "stream-violation-kills-tunnel",
+                                          f"stream {sid} was rejected ({why}): only that RPC may fail, but its next frame `{op}` ended the whole tunnel: {tunnel_err}"))
                         if o["F"] or o["D"] or ev:
                             v.append(("C07", "late-frame-not-ignored", f"`{op}` for finished stream {sid} had effects: {obs_line[:160]}"))
                     elif not tunnel_err:
@@ -686,6 +696,9 @@ class CWorldMonitor:
             for t in o["T"]:
                 if t not in self.table and t in self.rpcs and self.rpcs[t].get("by_close"):
                     v.append(("C14", "stale-table-entry", f"stream {t} still in the client table after its close frame"))
+                if t not in self.rpcs:
+                    v.append(("C14", "table-entry-without-rpc", f"the client table holds stream {t}, but no NewStream / Invoke that succeeded created it "
+                                                                f"(an RPC that failed at creation left its entry behind)"))
         # ---- goroutine census (C14): G=receive loops,watchers,one-send goroutines ----
         g = parse_census(o)
         if g is not None and not self.blocked:
